@@ -373,7 +373,8 @@ static void sweep_item(uint64_t i, CaseInfo& ci) {
 static void case_huge(ByteSource& in, CaseInfo& ci) {
   size_t T = std::min<size_t>(INV_DIVAPPR_Q_THRESHOLD, 20000); size_t dn = T - 3 + (size_t)in.range(0, T / 4 + 6);
   DivCase c = gen_div(in, ci, false, dn, 2 * dn + 40 + (size_t)in.range(0, dn / 2));
-  size_t nn = std::max(c.n.size(), dn); Limbs np(nn, 0); std::copy(c.n.m.begin(), c.n.m.end(), np.begin()); Limbs dp = c.d.m; dn = dp.size(); size_t qn = nn - dn + 1;
+  Limbs dp = c.d.m; dn = dp.size();   /* (the constructed divisor of the straddling mode may be a limb longer or shorter than asked for) */
+  size_t nn = std::max(c.n.size(), dn); Limbs np(nn, 0); std::copy(c.n.m.begin(), c.n.m.end(), np.begin()); size_t qn = nn - dn + 1;
   bool qonly = in.pick({3, 1}) == 0; ci.label("huge_inv_divappr"); ci.nontrivial = true; ci.d("%s nn=%zu dn=%zu ", qonly ? "mpn_tdiv_q" : "mpn_tdiv_qr", nn, dn); DESC(ci, "n=" + show(c.n, 64) + " d=" + show(c.d, 64));
   Guarded q(qn), r(dn); Limbs n0 = np, d0 = dp;
   if (qonly) mpn_tdiv_q(q.p(), np.data(), nn, dp.data(), dn); else mpn_tdiv_qr(q.p(), r.p(), 0, np.data(), nn, dp.data(), dn);
